@@ -184,6 +184,9 @@ func (f *failReader) Token() (xml.Token, error) {
 // fault: the first call stops after k tokens of its element; then Send(next).
 func (c *ctxT) fault(cfg cfgT, mode string, toks []xml.Token, k int, next []xml.Token) {
 	r := c.r
+	if c.stalls >= 3 {
+		return // the finding is recorded; every further case would wait for its watchdogs
+	}
 	if mode == "badtok" {
 		// an unmatched end tag directly inside the outermost element is taken for its end by
 		// xmlstream.Inner (no failure): only positions inside a child make the encoder refuse it
@@ -208,24 +211,27 @@ func (c *ctxT) fault(cfg cfgT, mode string, toks []xml.Token, k int, next []xml.
 	}
 	ctx := context.Background()
 	var err1 error
-	p := common.Recover(func() {
-		switch mode {
-		case "reader":
-			err1 = rs.S.Send(ctx, &failReader{t: toks, k: k})
-		case "tw":
-			w := rs.S.TokenWriter()
-			for i := 0; i < k && i < len(toks); i++ {
-				if err1 = w.EncodeToken(xml.CopyToken(toks[i])); err1 != nil {
-					break
+	var p, p2 string
+	stalled := !common.WithTimeout(10*time.Second, func() {
+		p = common.Recover(func() {
+			switch mode {
+			case "reader":
+				err1 = rs.S.Send(ctx, &failReader{t: toks, k: k})
+			case "tw":
+				w := rs.S.TokenWriter()
+				for i := 0; i < k && i < len(toks); i++ {
+					if err1 = w.EncodeToken(xml.CopyToken(toks[i])); err1 != nil {
+						break
+					}
 				}
+				if e := w.Close(); err1 == nil {
+					err1 = e
+				}
+			case "badtok":
+				bad := append(append(append([]xml.Token(nil), toks[:k]...), xml.EndElement{Name: xml.Name{Local: "zzz"}}), toks[k:]...)
+				err1 = rs.S.Send(ctx, reader(bad))
 			}
-			if e := w.Close(); err1 == nil {
-				err1 = e
-			}
-		case "badtok":
-			bad := append(append(append([]xml.Token(nil), toks[:k]...), xml.EndElement{Name: xml.Name{Local: "zzz"}}), toks[k:]...)
-			err1 = rs.S.Send(ctx, reader(bad))
-		}
+		})
 	})
 	s1 := "ok"
 	if err1 != nil {
@@ -233,15 +239,40 @@ func (c *ctxT) fault(cfg cfgT, mode string, toks []xml.Token, k int, next []xml.
 	}
 	before := rs.Out.Len()
 	var err2 error
-	p2 := common.Recover(func() { err2 = rs.S.Send(ctx, reader(next)) })
+	stalled = stalled || !common.WithTimeout(10*time.Second, func() {
+		p2 = common.Recover(func() { err2 = rs.S.Send(ctx, reader(next)) })
+	})
 	s2 := "ok"
 	if err2 != nil {
 		s2 = "broken"
 	}
 	wroteNext := rs.Out.Len() - before
 	// bring out whatever is still buffered (a refused writer does not write, it only flushes)
-	common.Recover(func() { rs.S.TokenWriter().Close() })
+	stalled = stalled || !common.WithTimeout(2*time.Second, func() { common.Recover(func() { rs.S.TokenWriter().Close() }) })
 	wire := rs.Out.Bytes()
+	// a token writer after the two calls: whatever it is told, it must give the lock back
+	var err3 error
+	stalled = stalled || !common.WithTimeout(2*time.Second, func() {
+		common.Recover(func() {
+			w := rs.S.TokenWriter()
+			st := next[0].(xml.StartElement)
+			err3 = w.EncodeToken(xml.CopyToken(st))
+			if err3 == nil {
+				err3 = w.EncodeToken(st.End())
+			}
+			w.Close()
+		})
+	})
+	if (err3 == nil) != (s2 == "ok") && !stalled {
+		r.Fail("next-after-failure", "fault/"+mode+"/tokenwriter", lines, fmt.Sprintf("Send after the failed call returned %v but a token writer's first EncodeToken returned %v", err2, err3))
+	}
+	stalled = stalled || !common.WithTimeout(2*time.Second, func() { common.Recover(func() { rs.S.TokenWriter().Close() }) })
+	if stalled {
+		c.stalls++
+		r.Line(line, "STALL")
+		r.Fail("lock-released", "fault/"+mode, lines, "a call after the failed one blocks: the output lock was not released")
+		return
+	}
 	toksOnWire, perr := parseInStream(cfg.ns, wire)
 	if perr != nil {
 		// an unfinished element: keep what the decoder delivered before it hit the end
